@@ -5,6 +5,7 @@ import (
 	"go/constant"
 	"go/token"
 	"go/types"
+	"reflect"
 	"strings"
 
 	"golang.org/x/tools/go/packages"
@@ -143,6 +144,18 @@ func EnclosingFunc(pk *packages.Package, pos token.Pos) *ast.FuncDecl {
 // PathTo returns the chain of nodes from root down to the node at target
 // position range (outermost first).
 func PathTo(root ast.Node, target ast.Node) []ast.Node {
+	if target == nil || reflect.ValueOf(target).Kind() == reflect.Ptr && reflect.ValueOf(target).IsNil() {
+		return nil
+	}
+	// a target outside root (a construct that was factored out into a helper,
+	// reached through TreeBody) is located inside its own function instead
+	if root != nil && target != nil && (target.Pos() < root.Pos() || target.End() > root.End()) {
+		if _, isBody := root.(*ast.BlockStmt); isBody && Current != nil {
+			if fd := Current.EnclosingDecl(target.Pos()); fd != nil && fd.Body != nil && ast.Node(fd.Body) != root {
+				root = fd.Body
+			}
+		}
+	}
 	var path []ast.Node
 	var found bool
 	var stack []ast.Node
@@ -215,4 +228,95 @@ func Implementers(pkg *types.Package, iface *types.Interface) []*types.Named {
 		}
 	}
 	return out
+}
+
+// NormExpr prints an expression for use in an obligation key. Access paths
+// rooted at local variables are described by type instead of by name, keeping
+// only the last field: `ps.items[0]`, `p.items[0]` and (with `x := ps`)
+// `x.items[0]` all print as `‹*popSet›.items[0]`; `locs[0].Span[2]` and (with
+// `l := locs[0]`) `l.Span[2]` both print as `‹*Location›.Span[2]`. Renaming a
+// local or introducing an alias therefore does not change the key.
+func NormExpr(info *types.Info, e ast.Expr) string {
+	short := func(t types.Type) string {
+		if t == nil {
+			return "?"
+		}
+		s := types.TypeString(t, func(*types.Package) string { return "" })
+		if len(s) > 40 {
+			s = s[:40] + "…"
+		}
+		return "‹" + s + "›"
+	}
+	isLocal := func(id *ast.Ident) bool {
+		obj := info.Uses[id]
+		if obj == nil {
+			obj = info.Defs[id]
+		}
+		v, ok := obj.(*types.Var)
+		return ok && !v.IsField() && v.Pkg() != nil && v.Parent() != v.Pkg().Scope()
+	}
+	var isPath func(e ast.Expr) bool
+	isPath = func(e ast.Expr) bool {
+		switch x := e.(type) {
+		case *ast.Ident:
+			return isLocal(x)
+		case *ast.ParenExpr:
+			return isPath(x.X)
+		case *ast.StarExpr:
+			return isPath(x.X)
+		case *ast.SelectorExpr:
+			if sel := info.Selections[x]; sel != nil && sel.Kind() == types.FieldVal {
+				return isPath(x.X)
+			}
+		case *ast.IndexExpr:
+			return isPath(x.X)
+		}
+		return false
+	}
+	var norm func(e ast.Expr) string
+	norm = func(e ast.Expr) string {
+		switch x := e.(type) {
+		case nil:
+			return ""
+		case *ast.Ident:
+			if isLocal(x) {
+				return short(info.TypeOf(x))
+			}
+			return x.Name
+		case *ast.ParenExpr:
+			return "(" + norm(x.X) + ")"
+		case *ast.StarExpr:
+			return "*" + norm(x.X)
+		case *ast.UnaryExpr:
+			return x.Op.String() + norm(x.X)
+		case *ast.BinaryExpr:
+			return norm(x.X) + " " + x.Op.String() + " " + norm(x.Y)
+		case *ast.SelectorExpr:
+			if sel := info.Selections[x]; sel != nil && sel.Kind() == types.FieldVal && isPath(x.X) {
+				return short(info.TypeOf(x.X)) + "." + x.Sel.Name
+			}
+			return norm(x.X) + "." + x.Sel.Name
+		case *ast.IndexExpr:
+			return norm(x.X) + "[" + norm(x.Index) + "]"
+		case *ast.SliceExpr:
+			s := norm(x.X) + "[" + norm(x.Low) + ":" + norm(x.High)
+			if x.Slice3 {
+				s += ":" + norm(x.Max)
+			}
+			return s + "]"
+		case *ast.CallExpr:
+			var as []string
+			for _, a := range x.Args {
+				as = append(as, norm(a))
+			}
+			return norm(x.Fun) + "(" + strings.Join(as, ", ") + ")"
+		case *ast.TypeAssertExpr:
+			if x.Type == nil {
+				return norm(x.X) + ".(type)"
+			}
+			return norm(x.X) + ".(" + types.ExprString(x.Type) + ")"
+		}
+		return types.ExprString(e)
+	}
+	return norm(e)
 }
